@@ -275,7 +275,8 @@ class Logistic(BaseDatafit):
 
     def raw_hessian(self, y, Xw):
         """Compute Hessian of datafit w.r.t ``Xw``."""
-        exp_minus_yXw = np.exp(-y * Xw)
+        # sigmoid(z) * sigmoid(-z) is even in z: evaluating it at -|z| cannot overflow
+        exp_minus_yXw = np.exp(-np.abs(y * Xw))
         return exp_minus_yXw / (1 + exp_minus_yXw) ** 2 / len(y)
 
     def get_lipschitz(self, X, y):
